@@ -627,6 +627,8 @@ class Shaving(Base):
         hub.on("alg_exit", self.exit)
         hub.on("shave_enter", self.shave_enter)
         hub.on("shave_exit", self.shave_exit)
+        self.confluent = None
+        self.last_inner_status = None
 
     def _ref_bc(self, args, stack_row, flags_row, queue, fix=None):
         """Plain BC through the real (unwrapped) function on private copies; monitors are muted meanwhile."""
@@ -659,12 +661,20 @@ class Shaving(Base):
         if idx != CA.CONSISTENCY_ALG_SHAVING or inner:
             self.entries.append(None)
             return
+        if self.confluent is None:
+            # the independent re-derivation of a refutation assumes that the result of a pass does not depend on the
+            # wake-up order; affine_eq (one round, not re-run) breaks that, see finding F14
+            from framework import nucsmap as M
+
+            self.confluent = all(M.NAME_OF.get(int(a)) != "affine_eq" for a in args[A_ALGS])
         top = int(args[A_TOP][0])
         self.entries.append({"top": top, "doms": args[A_STACK][top].copy(), "flags": args[A_FLAGS][top].copy(),
                              "queue": args[A_QUEUE].copy(), "below": args[A_STACK][:top].copy()})
 
     def exit(self, idx, args, status, inner):
         e = self.entries.pop()
+        if inner:
+            self.last_inner_status = int(status)
         if e is None:
             return
         self.c("shaving_calls")
@@ -741,9 +751,15 @@ class Shaving(Base):
                           "after shaving bound %d of domain %d: %r, expected %r" % (bound, d, doms.tolist(),
                                                                                     exp.tolist()))
             # independent refutation: BC with the variable fixed to that bound must fail
+            if self.last_inner_status != P_INC:
+                self.fail("C10", "shaved_although_the_probe_did_not_fail",
+                          "value %d of domain %d was removed but the probe's propagation pass returned status %r" % (
+                              v, d, self.last_inner_status))
             rst, _ = self._ref_bc(full, pr["doms"], pr["flags"], pr["queue"], fix=(d, v))
             self.c("refutations_rechecked")
-            if rst != P_INC:
+            if rst != P_INC and not self.confluent:
+                self.c("refutations_not_reproduced_on_order_dependent_model")
+            elif rst != P_INC:
                 self.fail("C10", "shaved_without_refutation",
                           "value %d of domain %d was removed but propagation with the variable fixed to it does not "
                           "fail (entry %r)" % (v, d, pr["doms"].tolist()))
@@ -757,6 +773,9 @@ class Shaving(Base):
                             break
         else:
             self.c("probes_not_shaved")
+            if self.last_inner_status == P_INC:
+                self.fail("C10", "refuted_value_not_shaved",
+                          "the probe's propagation pass failed for value %d of domain %d but the value was kept" % (v, d))
             if not np.array_equal(doms, pr["doms"]):
                 self.fail("C10", "failed_probe_not_undone",
                           "after an unsuccessful probe of bound %d of domain %d: %r, before %r" % (
